@@ -456,6 +456,16 @@ fn c17(rng: &mut Rng, _tier: &str, _idx: usize) -> Case {
         c.op(format!("term {} {}", t, name("t")));
     }
     c.op("complete".to_string());
+    if rng.chance(1, 2) {
+        // a hierarchy among the terms (the clustered sets then contain ancestors and descendants
+        // of each other; the union of two sets is the plain set union all the same)
+        for i in 1..m {
+            if rng.chance(2, 3) {
+                c.op(format!("parent {} {}", tids[rng.below(i as u64) as usize], tids[i]));
+            }
+        }
+        c.stat("hierarchical_ontologies", 1);
+    }
     c.op("connect".to_string());
     c.op("ic".to_string());
     c.op("build min 0".to_string());
